@@ -16,10 +16,14 @@ RULE = ('Hypothesis: C01 programs (single- and multi-input stages, raising maps 
         'object is shared between the two trees; (3) for every profiling node, hit_count[0]-hit_count[1] equals the '
         'call counter of the spy directly above it, the root counts equal what the harness fetched, failed fetches '
         'are counted separately. Non-trivial: >=3 stages and (multi-input stage, partial iteration, or a failed '
-        'fetch); distinct by case JSON.')
+        'fetch); distinct by case JSON. Part sched: profiled PrefetchDataset / ParMapDataset workloads (n 0..6, 1-3 workers, '
+        'faults, catch sets, early stops) x owned schedules (every one-preemption schedule of small workloads, drawn '
+        'schedules beyond); non-trivial there: >=2 workers runnable and (a preemption or out-of-order completion).')
 ASSUMPTIONS = [
-    'counts are exact without prefetch and behind the 1-worker thread prefetch; behind >=2 worker threads only '
-    '"<= spy calls, failed <= total" is required (unlocked += on a shared list is a byte-code level race)',
+    'counts are exact without prefetch and behind the 1-worker thread prefetch; behind >=2 REAL worker threads only '
+    '"<= spy calls, failed <= total" is required (unlocked += on a shared list is a byte-code level race); part '
+    '"sched" runs the profiled prefetch pipeline under harness-owned schedules (source-line granularity), where the '
+    'counts of every node are required to be exact against the event log',
     'shared caches and user supplied random generators are compared by identity, not by content',
     'ProfilingDataset.indexable is a method and there is no ordered flag: flags are not part of the comparison',
 ]
@@ -333,6 +337,10 @@ def replay(case):
     if case.get('growing'):
         check_growing(case)
         return
+    if case.get('profiled'):
+        from .. import sched_engine as E
+        sched_judge(E.run_case(case))
+        return
     check(dict(case))
 
 
@@ -420,6 +428,97 @@ def st_case(draw):
     return case
 
 
+# ---------------------------------------------------------------------------------------------------------------------
+# part "sched": the profiled pipeline behind worker threads under harness-owned schedules (exact counts, no clock)
+
+SCHED_N = {'quick': 150, 'thorough': 1500}
+
+
+def sched_judge(tr):
+    from .. import sched_engine as E
+    E.judge_termination(tr)
+    E.judge_values(tr)
+    E.judge_profile(tr)
+
+
+def sched_workloads(tier):
+    """(workload, max preemptions): every schedule with one preemption at any line of core.py / parallel_utils.py."""
+    out = []
+    for n in ((2,) if tier == 'quick' else (2, 3)):
+        out.append(({'kind': 'pf', 'n': n, 'workers': 2, 'buffer': 2, 'profiled': True, 'trace_core': True}, 1))
+        out.append(({'kind': 'pf', 'n': n, 'workers': 2, 'buffer': 2, 'profiled': True, 'trace_core': True,
+                     'fn_fail': {'0': 'VErrA'}, 'catch': 'VErrA'}, 1))
+        out.append(({'kind': 'pf', 'n': n + 1, 'workers': 2, 'buffer': 2, 'profiled': True, 'trace_core': True,
+                     'stop': {'kind': 'close', 'k': 1}}, 1))
+        out.append(({'kind': 'pm', 'n': n, 'workers': 2, 'buffer': 2, 'profiled': True, 'trace_core': True}, 1))
+    if tier == 'thorough':
+        out.append(({'kind': 'pf', 'n': 2, 'workers': 2, 'buffer': 2, 'profiled': True, 'trace_core': True}, 2))
+        out.append(({'kind': 'pf', 'n': 3, 'workers': 3, 'buffer': 3, 'profiled': True, 'trace_core': True,
+                     'src_fail': {'1': 'VErrC'}}, 1))
+    return out
+
+
+@st.composite
+def st_sched_case(draw):
+    from .. import sched_engine as E
+    kind = draw(st.sampled_from(['pf', 'pf', 'pf', 'pm']))
+    w = draw(st.sampled_from([1, 2, 2, 3]))
+    b = draw(st.integers(w, 4))
+    n = draw(st.integers(0, 6))
+    case = {'kind': kind, 'n': n, 'workers': w, 'buffer': b, 'profiled': True, 'trace_core': draw(st.booleans())}
+    keyed = draw(st.integers(0, 2))
+    if keyed == 1 and not (kind == 'pf' and w > 1):
+        case['with_key'] = True
+    elif keyed:
+        case['src'] = 'dict'
+    case['yields'] = draw(st.lists(st.integers(0, 3), min_size=n, max_size=n))
+    if n >= 2 and draw(st.integers(0, 3)) > 0:
+        case['slow'] = [draw(st.integers(0, n - 2)), draw(st.integers(8, 40))]
+    mode = draw(st.sampled_from(['plain', 'plain', 'fault', 'stop']))
+    if mode == 'fault' and n:
+        fails = draw(st.lists(st.integers(0, n - 1), min_size=1, max_size=min(n, 3), unique=True))
+        src_fail, fn_fail = {}, {}
+        for p_ in fails:
+            (src_fail if draw(st.booleans()) else fn_fail)[str(p_)] = draw(st.sampled_from(['VErrA', 'VErrB', 'VErrC']))
+        case['src_fail'], case['fn_fail'] = src_fail, fn_fail
+        if kind == 'pf':
+            case['catch'] = draw(st.sampled_from([False, 'VErrA', ['VErrA', 'VErrC']]))
+            if case['catch'] is not False and w > 1:
+                case.pop('with_key', None)
+    elif mode == 'stop':
+        sk = draw(st.sampled_from(['close', 'close', 'del', 'gc']))
+        case['stop'] = {'kind': sk, 'k': draw(st.integers(0, n + 1))}
+    if draw(st.integers(0, 2)) == 0:
+        case['pauses'] = draw(st.lists(st.integers(0, n), min_size=0, max_size=3, unique=True))
+    case['sched'] = draw(E.st_sched())
+    return case
+
+
+def run_sched_part(tier, idx, nshards, rec, known):
+    from .. import sched_engine as E
+    from . import sched_common as SC
+
+    def nontrivial(case, tr):
+        return case['workers'] >= 2 and tr.sched.max_enabled >= 2 and (E.reordered(tr) or tr.sched.preemptions >= 1)
+
+    def on(case, tr):
+        return SC.classes(case, tr) | {'part:sched'}
+
+    outs = [SC.run_dfs(sched_workloads(tier), sched_judge, nontrivial, rec, known, idx, nshards)]
+    if outs[0].violation:
+        return outs
+
+    def check_one(case):
+        tr = E.run_case(case)
+        if tr.os_alive:
+            raise RuntimeError(f'harness: OS threads still alive after the case: {tr.os_alive}')
+        sched_judge(tr)
+        rec.case(dict(SC.summarise(case, tr), part='sched', counts=getattr(tr, 'prof', None)), nontrivial(case, tr),
+                 on(case, tr), size=case['n'])
+    outs.append(drive(check_one, st_sched_case(), SCHED_N[tier], rec, known, seed() * 1000 + 500 + idx))
+    return outs
+
+
 def run_shard(tier, idx, nshards, rec, known):
     progcheck.setup_process()
 
@@ -450,4 +549,7 @@ def run_shard(tier, idx, nshards, rec, known):
                         o0.violation = (case, v.sig, v.detail)
                         return [o0]
                 rec.case(case, True, ['growing-list'], size=n)
-    return [drive(one, st_case(), N[tier], rec, known, seed() * 1000 + idx)]
+    outs = [drive(one, st_case(), N[tier], rec, known, seed() * 1000 + idx)]
+    if not outs[0].violation:
+        outs.extend(run_sched_part(tier, idx, nshards, rec, known))
+    return outs
